@@ -319,6 +319,8 @@ func main() {
 		values(*out, *maxlen, rng)
 	case "misc":
 		misc(*out, rng)
+	case "colour":
+		colour(*out, rng)
 	case "front":
 		front(*out)
 	case "fatalchild":
